@@ -1,3 +1,5 @@
+import ast
+
 from outsourcer import Code
 
 from .base import Expression
@@ -20,6 +22,13 @@ class PythonExpression(Expression):
 
     def can_partially_succeed(self):
         return False
+
+    def mentioned_names(self):
+        try:
+            tree = ast.parse(self.source_code.strip(), mode='eval')
+        except SyntaxError:
+            return ()
+        return sorted({x.id for x in ast.walk(tree) if isinstance(x, ast.Name)})
 
     def _compile(self, out, flags):
         out += RESULT << Code(self.source_code)
